@@ -43,6 +43,8 @@ PROP = dict(
                            "monitor:reply-id-compared": 100000, "monitor:reply-body-compared": 50000,
                            "monitor:further-reply-refused": 30000, "request:without-id": 10000,
                            "peer:id-only-requests": 20000, "request:id-only-dispatched": 20000}),
+              dict(name="c12_cxx", src=["c12_cxx.cpp", "c12_cxx_tr.c"], libs=["mpt++", "mptio", "mptplot", "mptcore"], batch=512,
+                   floors={}),
               dict(name="c12_conn", src=["c12_conn.c"], libs=["mptio", "mptcore"], batch=512,
                    floors={"mpt_connection_assign(stream)": 8000, "mpt_connection_assign(datagram)": 8000,
                            "mpt_connection_dispatch": 200000, "mpt_outdata_recv": 40000, "mpt_connection_await": 30000,
